@@ -22,7 +22,7 @@ import time
 
 WT = '/tmp/seedv'
 VERIF = '/verif'
-ENV = dict(os.environ, CHERAB_ROOT=WT, PYTHONPATH='/tmp/wtsite')
+ENV = dict(os.environ, CHERAB_ROOT=WT, PYTHONPATH='/tmp/wtsite', OMP_NUM_THREADS='1', OPENBLAS_NUM_THREADS='1', MKL_NUM_THREADS='1')
 
 
 def sh(cmd, cwd=WT, env=None, timeout=3600):
